@@ -23,6 +23,8 @@ try:
             continue
         meta = json.load(open(os.path.join(d, 'meta.json')))
         cmd = re.split(r'\s{2,}#|\s#\s', meta['demo_cmd'])[0].strip()
+        if os.path.exists(os.path.join(d, 'demo_override.txt')):
+            cmd = open(os.path.join(d, 'demo_override.txt')).read().strip()
         res = {'name': m, 'group': grp, 'demo_cmd': cmd}
         rc, o = sh('git apply seeded-out/%s/patch.diff' % m)
         res['applies'] = rc == 0
